@@ -5,6 +5,13 @@ Expected outcomes (values per parameter, *args, **kw, or the error kind) always 
 BindV table (CallableExport.tla) or the `res` / `rep` / `bound` / `vargs` variables of simulated behaviours.  The only
 oracle besides the spec is the interpreter itself: every generated function is also called directly, and a
 disagreement between the interpreter and BindV is a machinery failure (the spec is wrong), never a violation.
+
+Concretisation.  Spec values are ints that name the ORIGIN of a value (300+i: i-th positional argument of the call,
+900+p: the default of p, 100000+v: the container pg.Dict(x=v), ...).  A `Palette` maps origins to concrete Python
+values: the identity (distinct truthy ints), all None, or a cycle of falsy values (None, 0, '', False, [], {}), for
+the arguments and - independently - for the function's own defaults (the functions are generated per default
+variant).  The expected result of the spec is pushed through the same palette before it is compared, so the law is
+unchanged: result / error kind = the direct call with the effective arguments.
 """
 from __future__ import annotations
 
@@ -20,9 +27,58 @@ from .core import MachineryFailure
 NAME = {1: 'p1', 2: 'p2', 3: 'p3', 11: 'k11', 12: 'k12', 21: 'x21', 22: 'x22'}
 CODE = {v: k for k, v in NAME.items()}
 MODULE = 'pgverif_c18_generated'
+BOX = 100000          # Box(v) of Callable.tla: the symbolic container pg.Dict(x=v)
 
 _mod = types.ModuleType(MODULE)
 sys.modules[MODULE] = _mod
+
+FALSY = (None, 0, '', False, [], {})
+FALSY_DEFAULTS = (0, '', False, [], {})      # without None, so that "all None" arguments never equal a default
+DEFAULT_VARIANTS = ('truthy', 'none', 'falsy')
+ARG_MODES = ('origin', 'none', 'falsy')
+
+
+def default_value(p: int, dv: str):
+  """The Python default of parameter p (spec value 900+p) under default variant dv."""
+  if dv == 'truthy':
+    return 900 + p
+  if dv == 'none':
+    return None
+  v = FALSY_DEFAULTS[p % len(FALSY_DEFAULTS)]
+  return type(v)() if isinstance(v, (list, dict)) else v
+
+
+class Palette:
+  """Origin -> concrete Python value."""
+
+  def __init__(self, argmode: str, dv: str):
+    self.argmode, self.dv = argmode, dv
+    self.name = f'{argmode}/{dv}'
+
+  def leaf(self, v: int):
+    if 900 <= v < 1000:
+      return default_value(v - 900, self.dv)
+    if self.argmode == 'origin':
+      return v
+    if self.argmode == 'none':
+      return None
+    x = FALSY[v % len(FALSY)]
+    return type(x)() if isinstance(x, (list, dict)) else x
+
+  def arg(self, v: int):
+    """Value to pass to the code (containers are fresh symbolic dicts)."""
+    return pg.Dict(x=self.leaf(v - BOX)) if v >= BOX else self.leaf(v)
+
+  def exp(self, v: int):
+    """The same value in the plain form results are compared in."""
+    return {'x': self.leaf(v - BOX)} if v >= BOX else self.leaf(v)
+
+
+# An argument value never coincides with a default: whether binding a value EQUAL to the default counts as
+# "specified" is not documented (the constructor says yes, assignment says no) and stays a don't-care.
+PALETTES = [Palette(a, d) for a, d in (('origin', 'truthy'), ('none', 'truthy'), ('falsy', 'truthy'),
+                                       ('origin', 'none'), ('origin', 'falsy'), ('none', 'falsy'))]
+IDENTITY = PALETTES[0]
 
 
 def sig_key(sig: dict) -> str:
@@ -31,10 +87,14 @@ def sig_key(sig: dict) -> str:
       k2='o' if sig['k2'] else '', vk='w' if sig['vk'] else '')
 
 
-def params_src(sig: dict) -> str:
+def has_default(sig: dict, p: int) -> bool:
+  return p == 12 or (1 <= p <= sig['npos'] and p > sig['npos'] - sig['ndef'])
+
+
+def params_src(sig: dict, dv: str = 'truthy') -> str:
   parts = []
   for p in range(1, sig['npos'] + 1):
-    parts.append(f'p{p}={900 + p}' if p > sig['npos'] - sig['ndef'] else f'p{p}')
+    parts.append(f'p{p}={default_value(p, dv)!r}' if has_default(sig, p) else f'p{p}')
   if sig['va']:
     parts.append('*args')
   elif sig['k1'] or sig['k2']:
@@ -42,7 +102,7 @@ def params_src(sig: dict) -> str:
   if sig['k1']:
     parts.append('k11')
   if sig['k2']:
-    parts.append('k12=912')
+    parts.append(f'k12={default_value(12, dv)!r}')
   if sig['vk']:
     parts.append('**kw')
   return ', '.join(parts)
@@ -58,24 +118,35 @@ def body_expr(sig: dict) -> str:
           ('dict(kw)' if sig['vk'] else '{}') + '}')
 
 
-class Generated:
-  """The artefacts generated for one signature."""
+def _define(src: str, name: str):
+  ns = _mod.__dict__
+  exec(compile(src, f'<{name}>', 'exec'), ns)  # pylint: disable=exec-used
+  obj = ns[name]
+  obj.__module__ = MODULE
+  return obj
 
-  def __init__(self, sig: dict):
-    self.sig = sig
-    self.key = sig_key(sig)
-    ns = _mod.__dict__
-    fname = 'fn_' + self.key
-    src = f'def {fname}({params_src(sig)}):\n  return {body_expr(sig)}\n'
-    exec(compile(src, f'<{fname}>', 'exec'), ns)  # pylint: disable=exec-used
-    self.fn = ns[fname]
-    self.fn.__module__ = MODULE
-    self.src = src
+
+def make_function(sig: dict, dv: str, name: str):
+  src = f'def {name}({params_src(sig, dv)}):\n  return {body_expr(sig)}\n'
+  return _define(src, name), src
+
+
+def make_class(sig: dict, dv: str, name: str):
+  psrc = params_src(sig, dv)
+  src = (f'class {name}:\n  def __init__(self{", " + psrc if psrc else ""}):\n'
+         f'    self.bound = {body_expr(sig)}\n')
+  return _define(src, name)
+
+
+class Generated:
+  """The artefacts generated for one signature and one variant of its defaults."""
+
+  def __init__(self, sig: dict, dv: str):
+    self.sig, self.dv = sig, dv
+    self.key = sig_key(sig) + '_' + dv
+    self.fn, self.src = make_function(sig, dv, 'fn_' + self.key)
     # a second, identical function for pg.symbolize (a function can be registered once)
-    sname = 'sfn_' + self.key
-    exec(compile(src.replace(fname, sname), f'<{sname}>', 'exec'), ns)  # pylint: disable=exec-used
-    self.sfn = ns[sname]
-    self.sfn.__module__ = MODULE
+    self.sfn, _ = make_function(sig, dv, 'sfn_' + self.key)
     self._functor = None
     self._symbolized = None
     self._object = None
@@ -97,14 +168,7 @@ class Generated:
   @property
   def user_cls(self):
     if self._user_cls is None:
-      cname = 'K_' + self.key
-      psrc = params_src(self.sig)
-      src = (f'class {cname}:\n  def __init__(self{", " + psrc if psrc else ""}):\n'
-             f'    self.bound = {body_expr(self.sig)}\n')
-      ns = _mod.__dict__
-      exec(compile(src, f'<{cname}>', 'exec'), ns)  # pylint: disable=exec-used
-      self._user_cls = ns[cname]
-      self._user_cls.__module__ = MODULE
+      self._user_cls = make_class(self.sig, self.dv, 'K_' + self.key)
     return self._user_cls
 
   @property
@@ -120,17 +184,19 @@ class Generated:
       sig = self.sig
       fields = []
       init_args = []
+
+      def spec(p):
+        return pg.typing.Any(default=default_value(p, self.dv)) if has_default(sig, p) else pg.typing.Any()
       for p in range(1, sig['npos'] + 1):
-        has_default = p > sig['npos'] - sig['ndef']
-        fields.append((f'p{p}', pg.typing.Any(default=900 + p) if has_default else pg.typing.Any()))
+        fields.append((f'p{p}', spec(p)))
         init_args.append(f'p{p}')
       if sig['va']:
         fields.append(('args', pg.typing.List(pg.typing.Any(), default=[])))
         init_args.append('*args')
       if sig['k1']:
-        fields.append(('k11', pg.typing.Any()))
+        fields.append(('k11', spec(11)))
       if sig['k2']:
-        fields.append(('k12', pg.typing.Any(default=912)))
+        fields.append(('k12', spec(12)))
       if sig['vk']:
         fields.append((pg.typing.StrKey(), pg.typing.Any()))
       base = type('O_' + self.key, (pg.Object,), {'__module__': MODULE})
@@ -141,25 +207,15 @@ class Generated:
 _GEN: Dict[str, Generated] = {}
 
 
-def generated(sig: dict) -> Generated:
-  k = sig_key(sig)
+def generated(sig: dict, dv: str = 'truthy') -> Generated:
+  k = sig_key(sig) + '_' + dv
   if k not in _GEN:
-    _GEN[k] = Generated(sig)
+    _GEN[k] = Generated(sig, dv)
   return _GEN[k]
 
 
 # ---------------------------------------------------------------------------------------------------------------
 # outcomes
-
-
-def expected_of(entry: dict) -> Tuple[str, Optional[dict]]:
-  """Table entry / `res` state value -> (err, normalised result or None)."""
-  err = entry['err']
-  if err != 'ok':
-    return err, None
-  v = {NAME[n]: x for n, x in _pairs(entry['vals']).items()}
-  x = {NAME[n]: y for n, y in _pairs(entry['kwx']).items()}
-  return 'ok', {'vals': v, 'va': list(entry['va']), 'kwx': x}
 
 
 def _pairs(f) -> Dict[int, Any]:
@@ -176,8 +232,25 @@ def _pairs(f) -> Dict[int, Any]:
   return out
 
 
-def call_args(nargs: int, kw, pbase: int, kbase: int):
-  return [pbase + k for k in range(1, nargs + 1)], {NAME[int(n)]: kbase + int(n) for n in sorted(kw)}
+def expected_of(entry: dict, pal: Palette = IDENTITY) -> Tuple[str, Optional[dict]]:
+  """Table entry / `res` state value -> (err, concretised result or None)."""
+  err = entry['err']
+  if err != 'ok':
+    return err, None
+  return 'ok', {'vals': {NAME[n]: pal.exp(x) for n, x in _pairs(entry['vals']).items()},
+                'va': [pal.exp(x) for x in entry['va']],
+                'kwx': {NAME[n]: pal.exp(y) for n, y in _pairs(entry['kwx']).items()}}
+
+
+def call_args(nargs: int, kw, pbase: int, kbase: int, pal: Palette = IDENTITY):
+  """The call shape of a table cell with the values of BindShape (pbase+i, kbase+n), concretised."""
+  return ([pal.arg(pbase + k) for k in range(1, nargs + 1)],
+          {NAME[int(n)]: pal.arg(kbase + int(n)) for n in sorted(kw)})
+
+
+def valued_args(pos, kw, pal: Palette = IDENTITY):
+  """Valued arguments as TLC printed them (sequence, function name -> value) -> (*args, **kwargs)."""
+  return [pal.arg(v) for v in pos], {NAME[n]: pal.arg(v) for n, v in sorted(_pairs(kw).items())}
 
 
 def outcome(thunk) -> Tuple[str, Any]:
@@ -190,35 +263,26 @@ def outcome(thunk) -> Tuple[str, Any]:
     return 'other:' + type(e).__name__, str(e)[:160]
 
 
-BOX = 100000          # Box(v) of Callable.tla: the symbolic container pg.Dict(x=v)
-
-
-def pyval(v):
-  """Spec value -> Python argument: ints stay ints, Box(v) is a fresh pg.Dict(x=v)."""
-  return pg.Dict(x=v - BOX) if isinstance(v, int) and v >= BOX else v
-
-
 def plain(x):
-  """Symbolic containers -> plain ones for comparison; a container {x: v} is mapped back to Box(v)."""
+  """Symbolic containers -> plain ones; bools are tagged so that False / 0 and True / 1 stay apart."""
   if isinstance(x, dict):
-    if list(x.keys()) == ['x'] and isinstance(x['x'], int):
-      return BOX + x['x']
     return {k: plain(v) for k, v in x.items()}
   if isinstance(x, (list, tuple)):
     return [plain(v) for v in x]
+  if isinstance(x, bool):
+    return f'<bool {x}>'
   return x
 
 
-def valued_args(pos, kw):
-  """Valued arguments as TLC printed them (sequence, function name -> value) -> (*args, **kwargs)."""
-  return [pyval(v) for v in pos], {NAME[n]: pyval(v) for n, v in sorted(_pairs(kw).items())}
+def same(a, b) -> bool:
+  return plain(a) == plain(b)
 
 
-def check_direct(gen: Generated, nargs: int, kw, exp_err: str, exp: Optional[dict], kbase: int = 400) -> None:
+def check_direct(gen: Generated, nargs: int, kw, exp_err: str, exp: Optional[dict], kbase: int, pal: Palette) -> None:
   """The interpreter must agree with BindV: otherwise the spec is wrong (machinery failure)."""
-  pos, kws = call_args(nargs, kw, 300, kbase)
+  pos, kws = call_args(nargs, kw, 300, kbase, pal)
   kind, val = outcome(lambda: gen.fn(*pos, **kws))
-  if (kind == 'ok') != (exp_err == 'ok') or (kind == 'ok' and val != exp) or kind.startswith('other'):
+  if (kind == 'ok') != (exp_err == 'ok') or (kind == 'ok' and not same(val, exp)) or kind.startswith('other'):
     raise MachineryFailure(f'BindV disagrees with the interpreter: {gen.src.splitlines()[0]} called with '
                            f'{pos} {kws}: spec {exp_err} {exp}, interpreter {kind} {val}')
 
@@ -227,24 +291,28 @@ def sym_args_of(obj, sig: dict) -> dict:
   """Projection of sym_init_args into the shape of a result."""
   sa = obj.sym_init_args
   names = named(sig)
-  vals = {n: plain(sa[n]) if n in sa else '<absent>' for n in names}
-  va = plain(sa['args']) if sig['va'] and 'args' in sa else []
-  if va == pg.MISSING_VALUE:
+  vals = {n: sa[n] if n in sa else '<absent>' for n in names}
+  va = sa['args'] if sig['va'] and 'args' in sa else []
+  if pg.MISSING_VALUE == va:
     va = []
-  kwx = {k: plain(v) for k, v in sa.items() if k not in names and k != 'args'}
-  return {'vals': vals, 'va': va, 'kwx': kwx}
+  kwx = {k: v for k, v in sa.items() if k not in names and k != 'args'}
+  return plain({'vals': vals, 'va': va, 'kwx': kwx})
 
 
-def expected_signature(gen: Generated) -> List[Tuple[str, str, Any]]:
-  return [(p.name, p.kind.name, p.default if p.default is not inspect.Parameter.empty else '<none>')
-          for p in inspect.signature(gen.fn).parameters.values()]
+def _sig_rows(parameters) -> List[Tuple[str, str, Any]]:
+  return [(p.name, p.kind.name, plain(p.default) if p.default is not inspect.Parameter.empty else '<none>')
+          for p in parameters]
+
+
+def expected_signature(fn) -> List[Tuple[str, str, Any]]:
+  return _sig_rows(inspect.signature(fn).parameters.values())
 
 
 def observed_signature(cls) -> List[Tuple[str, str, Any]]:
   ps = list(inspect.signature(cls.__init__).parameters.values())
   if ps and ps[0].name == 'self':
     ps = ps[1:]
-  return [(p.name, p.kind.name, p.default if p.default is not inspect.Parameter.empty else '<none>') for p in ps]
+  return _sig_rows(ps)
 
 
 def same_signature(exp, obs) -> bool:
@@ -265,11 +333,11 @@ def same_signature(exp, obs) -> bool:
 BINDINGS = ('functor', 'functor-late', 'symbolize', 'symbolize-late', 'object', 'wrap', 'object-partial', 'wrap-partial')
 
 
-def run_binding(gen: Generated, binding: str, nargs: int, kw, kbase: int = 400) -> Tuple[str, Any, Any]:
+def run_binding(gen: Generated, binding: str, nargs: int, kw, kbase: int, pal: Palette) -> Tuple[str, Any, Any]:
   """Returns (kind, result-shaped value, sym_init_args-shaped value or None).
 
   kbase = 400: a keyword carries its own value; kbase = 300: the value the positional route would carry."""
-  pos, kws = call_args(nargs, kw, 300, kbase)
+  pos, kws = call_args(nargs, kw, 300, kbase, pal)
   sig = gen.sig
   if binding in ('functor', 'symbolize'):
     cls = gen.functor if binding == 'functor' else gen.symbolized
@@ -307,19 +375,20 @@ def run_binding(gen: Generated, binding: str, nargs: int, kw, kbase: int = 400) 
   raise ValueError(binding)
 
 
-def expected_partial(entry: dict) -> Tuple[str, Optional[dict]]:
+def expected_partial(entry: dict, pal: Palette) -> Tuple[str, Optional[dict]]:
   """What cls.partial(..) must give for a table cell: (error kind, sym_init_args-shaped value or None)."""
   if entry['perr'] != 'ok':
     return entry['perr'], None
-  vals = {NAME[n]: (v if v != 0 else pg.MISSING_VALUE) for n, v in _pairs(entry['prep']).items()}
-  return 'ok', {'vals': vals, 'va': list(entry['pva']), 'kwx': {NAME[n]: v for n, v in _pairs(entry['pkwx']).items()}}
+  vals = {NAME[n]: (pal.exp(v) if v != 0 else pg.MISSING_VALUE) for n, v in _pairs(entry['prep']).items()}
+  return 'ok', {'vals': vals, 'va': [pal.exp(v) for v in entry['pva']],
+                'kwx': {NAME[n]: pal.exp(v) for n, v in _pairs(entry['pkwx']).items()}}
 
 
-def run_copies(gen: Generated, binding: str, nargs: int, kw, kbase: int = 400) -> Dict[str, Tuple[str, Any]]:
+def run_copies(gen: Generated, binding: str, nargs: int, kw, kbase: int, pal: Palette) -> Dict[str, Tuple[str, Any]]:
   """Clone and JSON round trip of an object bound in one go: way of copying -> (kind, result-shaped value).
 
   functor / symbolize: the copy is called; object: its sym_init_args; wrap: what the user __init__ of the copy got."""
-  pos, kws = call_args(nargs, kw, 300, kbase)
+  pos, kws = call_args(nargs, kw, 300, kbase, pal)
   if binding in ('functor', 'symbolize'):
     cls = gen.functor if binding == 'functor' else gen.symbolized
     use = lambda o: o()
@@ -341,13 +410,61 @@ def run_copies(gen: Generated, binding: str, nargs: int, kw, kbase: int = 400) -
 
 
 # ---------------------------------------------------------------------------------------------------------------
+# symbolization WITH an explicit argument specification (AnnotateOutcome of Callable.tla)
+
+ANNOTATE_KINDS = ('functor', 'symbolize', 'wrap')
+CONFLICT_DEFAULT = 7777          # differs from every default the generator uses and is not None
+
+
+def annotation_spec(sig: dict, dv: str, p: int, mode: str):
+  """The value spec handed to pg.functor([...]) / pg.symbolize(f, [...]) for parameter p."""
+  if mode == 'nodefault':
+    return pg.typing.Any()
+  if mode == 'same':
+    return pg.typing.Any(default=default_value(p, dv))
+  if mode == 'noneable':
+    return pg.typing.Any(default=None)       # "may be None": the callable's own default must stand
+  if mode == 'conflict':
+    return pg.typing.Any(default=CONFLICT_DEFAULT)
+  raise ValueError(mode)
+
+
+_ANN_COUNT = [0]
+
+
+def annotate(sig: dict, dv: str, p: int, mode: str, kind: str):
+  """Symbolizes a fresh copy of the generated function / class with a spec for parameter p.
+
+  Returns ('ok', symbolic class, original callable) | ('ValueError', msg, None) | ('other:<class>', msg, None)."""
+  _ANN_COUNT[0] += 1
+  name = f'a{_ANN_COUNT[0]}_{sig_key(sig)}_{dv}'
+  specs = [(NAME[p], annotation_spec(sig, dv, p, mode))]
+  try:
+    if kind == 'wrap':
+      target = make_class(sig, dv, 'AK_' + name)
+      return 'ok', pg.symbolize(target, specs), target
+    target, _ = make_function(sig, dv, 'afn_' + name)
+    if kind == 'functor':
+      return 'ok', pg.functor(specs)(target), target
+    return 'ok', pg.symbolize(target, specs), target
+  except ValueError as e:
+    return 'ValueError', str(e)[:160], None
+  except Exception as e:  # pylint: disable=broad-except
+    return 'other:' + type(e).__name__, str(e)[:160], None
+
+
+def run_annotated(cls, kind: str, late: bool, nargs: int, kw, kbase: int, pal: Palette):
+  pos, kws = call_args(nargs, kw, 300, kbase, pal)
+  if kind == 'wrap':
+    k, obj = outcome(lambda: cls(*pos, **kws))
+    return (k, obj.bound) if k == 'ok' else (k, obj)
+  if late:
+    return outcome(lambda: cls()(*pos, **kws))
+  return outcome(lambda: cls(*pos, **kws)())
+
+
+# ---------------------------------------------------------------------------------------------------------------
 # life-cycle mode: replay of one simulated behaviour of Callable.tla
-
-
-def _as_map(x) -> Dict[int, int]:
-  if isinstance(x, dict):
-    return {int(k): v for k, v in x.items()}
-  return {i + 1: v for i, v in enumerate(x)}      # TLC prints a function with domain 1..n as a sequence
 
 
 class Divergence(Exception):
@@ -355,16 +472,21 @@ class Divergence(Exception):
   def __init__(self, clause, expected, observed, step):
     super().__init__(clause)
     self.clause, self.expected, self.observed, self.step = clause, expected, observed, step
+    self.after_json = False
 
 
 class Replayer:
-  """Steps one behaviour through a functor made by pg.functor (flavour 0) or pg.symbolize (flavour 1)."""
+  """Steps one behaviour through a functor made by pg.functor (flavour 0) or pg.symbolize (flavour 1), with the
+  values concretised through `pal`."""
 
-  def __init__(self, flavour: int):
+  def __init__(self, flavour: int, pal: Palette = IDENTITY):
     self.flavour = flavour
+    self.pal = pal
     self.hits: Dict[str, int] = {}
     self.f = None
     self.nclone = 0
+    self.steps_done = 0
+    self.after_json = False
 
   def hit(self, k):
     self.hits[k] = self.hits.get(k, 0) + 1
@@ -373,7 +495,7 @@ class Replayer:
     """Returns the divergences met.  A diverging Call does not end the replay (a call changes nothing, the
     functor is still in the state the spec says); any other divergence does."""
     sig = beh[0].state['sig']
-    gen = generated(sig)
+    gen = generated(sig, self.pal.dv)
     cls = gen.functor if self.flavour == 0 else gen.symbolized
     out = []
     self.steps_done = 0
@@ -394,10 +516,11 @@ class Replayer:
     act = st['act']
     name = act[0]
     sig = gen.sig
-    exp_err, exp = expected_of(st['res']) if st['res']['err'] != 'none' else ('none', None)
+    pal = self.pal
+    exp_err, exp = expected_of(st['res'], pal) if st['res']['err'] != 'none' else ('none', None)
     if name == 'Construct':
       _, pvals, kvals, o, g, fa, vm = act
-      pos, kws = valued_args(pvals, kvals)
+      pos, kws = valued_args(pvals, kvals, pal)
       flags = {'override_args': o, 'ignore_extra_args': g} if fa == 'init' else {}
       kind, val = outcome(lambda: cls(*pos, **kws, **flags))
       self.hit(f'Construct:{exp_err}')
@@ -412,7 +535,7 @@ class Replayer:
           raise Divergence('construct-error-kind', f'TypeError ({exp_err})', kind, k)
         return
     elif name == 'SetAttr':
-      setattr(self.f, NAME[act[1]], pyval(act[2]))
+      setattr(self.f, NAME[act[1]], pal.arg(act[2]))
       self.hit('SetAttr')
     elif name == 'DelAttr':
       delattr(self.f, NAME[act[1]])
@@ -422,11 +545,11 @@ class Replayer:
       kinds = []
       for kind_, n, v in act[1]:                 # in the order the spec lists them
         if kind_ == 'in':
-          updates[NAME[n] + '.x'] = v - BOX       # nested path inside the container bound to n
+          updates[NAME[n] + '.x'] = pal.leaf(v - BOX)       # nested path inside the container bound to n
         else:
-          updates[NAME[n]] = pyval(v)
+          updates[NAME[n]] = pal.arg(v)
         kinds.append(kind_)
-      self.f.rebind(updates)
+      self.f.rebind(updates, raise_on_no_change=False)
       self.hit('Rebind')
       self.hit('Rebind-entries:%d' % len(kinds))
       if 'in' in kinds and kinds.index('in') < len(kinds) - 1:
@@ -445,7 +568,7 @@ class Replayer:
       return
     elif name == 'Call':
       _, pvals, kvals, ov, ig, cm = act
-      pos, kws = valued_args(pvals, kvals)
+      pos, kws = valued_args(pvals, kvals, pal)
       flags = {'override_args': ov, 'ignore_extra_args': ig} if st['flagAt'] == 'call' else {}
       kind, val = outcome(lambda: self.f(*pos, **kws, **flags))
       self.hit(f'Call:{exp_err}')
@@ -453,7 +576,7 @@ class Replayer:
       if exp_err == 'ok':
         if kind != 'ok':
           raise Divergence('call', 'ok', f'{kind}: {val}', k)
-        if plain(val) != exp:
+        if not same(val, exp):
           raise Divergence('call-result', exp, plain(val), k)
       elif kind != 'TypeError':
         raise Divergence('call-error-kind', f'TypeError ({exp_err})', kind if kind != 'ok' else f'ok: {plain(val)}', k)
@@ -461,10 +584,10 @@ class Replayer:
       raise MachineryFailure(f'unknown action {name}')
     # after every step on a live functor: what it reports must be what the spec says is bound
     if st['phase'] == 'built':
-      rep = {NAME[n]: (v if v != 0 else pg.MISSING_VALUE) for n, v in _as_map(st['rep']).items()}
-      bound = _as_map(st['bound'])
-      extras = {NAME[n]: v for n, v in bound.items() if NAME[n] not in rep}
-      want = {'vals': rep, 'va': list(st['vargs']), 'kwx': extras}
+      rep = {NAME[n]: (pal.exp(v) if v != 0 else pg.MISSING_VALUE) for n, v in _pairs(st['rep']).items()}
+      bound = _pairs(st['bound'])
+      extras = {NAME[n]: pal.exp(v) for n, v in bound.items() if NAME[n] not in rep}
+      want = plain({'vals': rep, 'va': [pal.exp(v) for v in st['vargs']], 'kwx': extras})
       got = sym_args_of(self.f, sig)
       if got != want:
         raise Divergence('sym_init_args', want, got, k)
